@@ -30,6 +30,8 @@ StrTypes == {"cstr", "lp8", "text", "atext", "ustr", "oneoftext"}
 NumBoundaries == {"zero", "one", "max", "maxminus1", "signbit", "signbitminus1"}
 TextNumBoundaries == {"empty", "minus1", "huge", "letters", "plus", "space", "zero"}
 LitByteValues == {0, 1, 2, 127, 128, 254, 255}
+\* an index that is part of a key's text (GameSpy 1 `player_7`, `frags_7`): the digits are replaced
+TxtIndexValues == {"0", "65536", "3000000", "4294967295", "18446744073709551615", "99999999999999999999", "-1"}
 
 Descriptors ==
        {[op |-> "truncate_at"], [op |-> "truncate_inside"], [op |-> "empty"], [op |-> "bad_first_byte"],
@@ -37,6 +39,7 @@ Descriptors ==
   \cup {[op |-> "set_num", b |-> b] : b \in NumBoundaries}
   \cup {[op |-> "set_textnum", b |-> b] : b \in TextNumBoundaries}
   \cup {[op |-> "set_lit_byte", v |-> v] : v \in LitByteValues}          \* counts, flags, totals, indices, headers
+  \cup {[op |-> "set_txt_index", v |-> v] : v \in TxtIndexValues}       \* indices written as decimal text inside a key
   \cup {[op |-> "drop_terminator"], [op |-> "invalid_text"], [op |-> "long_string"], [op |-> "empty_string"],
         [op |-> "set_length_prefix", v |-> 0], [op |-> "set_length_prefix", v |-> 127], [op |-> "set_length_prefix", v |-> 128],
         [op |-> "set_length_prefix", v |-> 255]}
@@ -55,7 +58,7 @@ AmplifyRepeat(item) == item.k = "txt" \/ (item.k = "f" /\ item.ty \in StrTypes)
 \* multi-datagram reply in reverse order - a size that is checked on "the first fragment" must be checked on whichever
 \* fragment arrives first.  The split-packet framing fields (id, size, decompressed size, CRC, total, number) are items like
 \* any other for the item-wise descriptors.
-ExtremeReversed == [op |-> "extreme_reversed", of |-> {"set_num", "set_textnum", "set_lit_byte"}]
+ExtremeReversed == [op |-> "extreme_reversed", of |-> {"set_num", "set_textnum", "set_lit_byte", "set_txt_index"}]
 
 \* which items a descriptor applies to
 AppliesTo(d, item) ==
@@ -63,6 +66,7 @@ AppliesTo(d, item) ==
     [] d.op = "set_num" -> item.k = "f" /\ item.ty \in NumTypes
     [] d.op = "set_textnum" -> item.k = "f" /\ item.ty \in TextNumTypes
     [] d.op = "set_lit_byte" -> item.k = "lit"
+    [] d.op = "set_txt_index" -> item.k = "txt"          \* (only literal texts that contain a decimal number change)
     [] d.op \in {"drop_terminator", "invalid_text", "long_string", "empty_string"} -> item.k = "f" /\ item.ty \in StrTypes
     [] d.op = "set_length_prefix" -> item.k = "f" /\ item.ty \in {"lp8", "ustr"}
     [] d.op = "json_value" -> item.k = "j"
